@@ -167,3 +167,6 @@ LEVEL_NOTE = ("Trusted: Lean kernel; extractor and harness; the hand-typed NCBI 
 
 HARNESS_BIN = "run-codon"
 EXTRACT_BINS = ["extract-codon"]
+
+# the same requests executed 8 at a time in concurrent goroutines (check: PARALLEL / harness: VERIF_PAR)
+PARALLEL = {"quick": {"par": 8, "max_cases": 4000}, "thorough": {"par": 8, "max_cases": 40000, "race": True}}
